@@ -83,13 +83,20 @@ structure Code where
   lines : List CodeLine
 deriving DecidableEq, Repr, Inhabited
 
+/-- the line printed for one command -/
+def genLine (tdm : Bool) (c : Cmd) : CodeLine :=
+  { cls := c.cls, args := (ctorParams c).map (genArg tdm), select := c.select, dark := c.dark,
+    dagger := c.dagger, modes := c.regs }
+
+/-- the arrays printed into `prog.context(…)` -/
+def genCtx (p : Prog) : List (List PyArg) :=
+  match p.tdm with
+  | some t => t.params.map fun row => row.map genNum
+  | none => []
+
 /-- `generate_code(prog)` -/
 def genCode (p : Prog) : Code :=
-  { tdmN := p.tdm.map (·.N), n := p.n
-    ctx := match p.tdm with | some t => t.params.map (·.map genNum) | none => []
-    lines := p.cmds.map fun c =>
-      { cls := c.cls, args := (ctorParams c).map (genArg p.tdm.isSome), select := c.select, dark := c.dark,
-        dagger := c.dagger, modes := c.regs } }
+  { tdmN := p.tdm.map (·.N), n := p.n, ctx := genCtx p, lines := p.cmds.map (genLine p.tdm.isSome) }
 
 /-! ### meaning of the printed code -/
 
@@ -113,11 +120,15 @@ def evalLine (k : Nat) (l : CodeLine) : Except Err Cmd := do
   let args ← l.args.mapM (denArg k)
   build l.cls l.modes args (optKw "select" l.select ++ optKw "dark_counts" l.dark) l.dagger
 
-/-- executing the generated code -/
-def evalCode (c : Code) : Except Err Prog := do
-  let ctx ← c.ctx.mapM fun row => row.mapM fun a => match denNum a with
+/-- evaluating one printed array -/
+def denRow (row : List PyArg) : Except Err (List Sc) :=
+  row.mapM fun a => match denNum a with
     | some s => Except.ok s
     | none => .error .typeError
+
+/-- executing the generated code -/
+def evalCode (c : Code) : Except Err Prog := do
+  let ctx ← c.ctx.mapM denRow
   let cmds ← c.lines.mapM (evalLine c.ctx.length)
   .ok { name := "", n := c.n, tdm := c.tdmN.map fun N => { N := N, params := ctx }, cmds := cmds }
 
